@@ -1,12 +1,13 @@
 #!/bin/sh
-# tools/refactor_matrix_wt.sh [jobs] : every behaviour-preserving refactoring (seeded/refactor_*) against the quick checks listed in
+# tools/refactor_matrix_wt.sh [jobs] [glob] [output file] : every behaviour-preserving refactoring (seeded/refactor_*) against the quick checks listed in
 # its meta.json ("checks_that_must_pass"), each applied in a scratch worktree the check is pointed at with NAUYACA_REPO.
 # A non-zero exit of any check is a FALSE ALARM.  Output: seeded/REFACTOR_MATRIX.txt of the tree this script lives in.
 HERE="$(cd "$(dirname "$0")/.." && pwd)"
 JOBS=${1:-4}
-OUT=$HERE/seeded/REFACTOR_MATRIX.txt
+GLOB=${2:-refactor_*}
+OUT=$HERE/seeded/${3:-REFACTOR_MATRIX.txt}
 TMP=$(mktemp -d /tmp/rfwt.XXXXXX)
-ls -d $HERE/seeded/refactor_* | sort > $TMP/all
+ls -d $HERE/seeded/$GLOB | sort > $TMP/all
 i=0
 while [ $i -lt $JOBS ]; do
   git -C /repo worktree add -q --detach $TMP/wt$i HEAD || exit 2
